@@ -1,6 +1,6 @@
 (* Pinned statements of C11 (generated once by tools/mkpins.py from coq/props/C11.v, then committed). *)
 From DV Require Import Model.Base Model.Parser Model.Header Model.Readers Model.Mutate Spec.NameSpec Spec.PacketSpec Spec.RecordSpec Spec.PlainSpec
-  Proofs.Hoare Proofs.WalkSkip Proofs.PlainWf Proofs.InsertSpec Proofs.DeleteInv Proofs.Totality Proofs.WalkInv Proofs.DecompressFirst Proofs.WalkFresh Proofs.DeleteWalk props.C11.
+  Proofs.Hoare Proofs.WalkSkip Proofs.PlainWf Proofs.InsertSpec Proofs.DeleteInv Proofs.Totality Proofs.WalkInv Proofs.DecompressFirst Proofs.WalkFresh Proofs.WalkSkipInv Proofs.DeleteWalk props.C11.
 Check (C11_walk_terminates : forall (A : Type) (D : A -> bool) (l : list A),
   exists r, awalk D ((ndel D l + 1) * (length l + 1)) l 0 [] = Some r).
 Print Assumptions C11_walk_terminates.
@@ -105,3 +105,34 @@ Check (C11_walk_on_any_object : forall sec, sec = SAnswer \/ sec = SNameServers 
 Print Assumptions C11_walk_on_any_object.
 Check (C11_parsed_packets_are_such_objects : forall p v, bytes_ok p -> parse p = Ok v -> objst v).
 Print Assumptions C11_parsed_packets_are_such_objects.
+Check (C11_next_skips_opt : forall v it qls qt lA lN lR sec l1 l, objst v -> reading (pp_packet v) qls qt lA lN lR ->
+  sec = SAnswer \/ sec = SNameServers \/ sec = SAdditional -> sec_list sec lA lN lR = l1 ++ l ->
+  ((l1 = [] /\ it_offset it = None /\ it_section it = sec) \/ (exists l0 rxp, l1 = l0 ++ [rxp] /\ it = cur_on sec (fst rxp) (length l))) ->
+  r_next v it = Ok (match skip_first l with None => None | Some (rx, l') => Some (cur_on sec (fst rx) (length l')) end)).
+Print Assumptions C11_next_skips_opt.
+Check (C11_walk_with_next_refines_machine : forall sec, sec = SAnswer \/ sec = SNameServers \/ sec = SAdditional ->
+  forall (D : rec_view * rd_view -> bool) (dec : ppacket -> rrit -> bool),
+  (forall v qls qt lA lN lR rxp n, reading (pp_packet v) qls qt lA lN lR -> In rxp (sec_list sec lA lN lR) ->
+     dec v (cur_on sec (fst rxp) n) = D (unpl rxp)) ->
+  forall fuel v it qls qt lA lN lR i cs ys,
+    objst v -> reading (pp_packet v) qls qt lA lN lR -> Cur_s sec it (sec_list sec lA lN lR) i -> Forall2 (yielded sec) cs ys ->
+    match awalk D fuel (filter nonoptp (map unpl (sec_list sec lA lN lR))) i ys with
+    | None => cwalk_s dec fuel v it cs = None
+    | Some (l', ys') =>
+      exists v' cs' lA' lN' lR', cwalk_s dec fuel v it cs = Some (v', cs') /\ objst v' /\ reading (pp_packet v') qls qt lA' lN' lR' /\
+        filter nonoptp (map unpl (sec_list sec lA' lN' lR')) = l' /\ other_sections_kept sec lA lN lR lA' lN' lR' /\
+        Forall2 (yielded sec) cs' ys'
+    end).
+Print Assumptions C11_walk_with_next_refines_machine.
+Check (C11_walk_with_next_exact : forall sec, sec = SAnswer \/ sec = SNameServers \/ sec = SAdditional ->
+  forall (D : rec_view * rd_view -> bool) (dec : ppacket -> rrit -> bool),
+  (forall v qls qt lA lN lR rxp n, reading (pp_packet v) qls qt lA lN lR -> In rxp (sec_list sec lA lN lR) ->
+     dec v (cur_on sec (fst rxp) n) = D (unpl rxp)) ->
+  forall v it qls qt lA lN lR,
+    objst v -> reading (pp_packet v) qls qt lA lN lR -> it_offset it = None -> it_section it = sec ->
+    let l := filter nonoptp (map unpl (sec_list sec lA lN lR)) in
+    exists v' cs lA' lN' lR' ys,
+      cwalk_s dec ((ndel D l + 1) * (length l + 1)) v it [] = Some (v', cs) /\ objst v' /\ reading (pp_packet v') qls qt lA' lN' lR' /\
+      filter nonoptp (map unpl (sec_list sec lA' lN' lR')) = filter (keep D) l /\ other_sections_kept sec lA lN lR lA' lN' lR' /\
+      Forall2 (yielded sec) cs ys /\ (forall y, In y (filter (keep D) l) -> In y ys) /\ (forall y, In y ys -> In y l)).
+Print Assumptions C11_walk_with_next_exact.
